@@ -25,6 +25,8 @@ type liveState struct {
 	// transient failures: the next n invocations of a datum's resolver fail
 	failNext map[string]int
 	failKind map[string]int
+	// kind of the failure already injected into the computation in progress, per instance
+	execFired map[int]int
 	writes   int
 	// onCanceled is told which subscription instance got a context.Canceled
 	// error from a resolver
@@ -79,6 +81,17 @@ func (l *liveState) dep(ctx context.Context, field string, id int64) error {
 	reactive.AddDependency(ctx, r.res, nil)
 	if n := l.failNext[key]; n > 0 {
 		l.failNext[key] = n - 1
+		// A computation reports one of the errors its resolvers return. Whether a
+		// bare context.Canceled (kind 4) is the one reported decides what must
+		// happen to the subscription, so it is never mixed with another failure
+		// inside one computation: the later of the two resolvers succeeds instead.
+		if prev, ok := l.execFired[inst]; ok && (prev == 4 || l.failKind[key] == 4) {
+			return nil
+		}
+		if l.execFired == nil {
+			l.execFired = map[int]int{}
+		}
+		l.execFired[inst] = l.failKind[key]
 		if k := l.failKind[key]; k >= 1 && k <= 3 && l.onFailure != nil {
 			l.onFailure(inst)
 		}
